@@ -38,11 +38,14 @@ def check_shape(ts, what):
         raise Unsupported(f"{what}: the code after the step-6 loop was not reached")
 
 
-def prepare(base):
+def prepare(base, an=None):
     """the transition system the comparisons work on: carried array elements replaced by the elements (`A == pts[k]` at step 6), then every
     counter-only way out of a loop taken as soon as its condition is known (e7_sym.merge_exits) - the place where the source tests
     `j < 2`, `k >= L`, `k >= j` does not matter.  (The abstract interpretation of C05-R4 and the finite-world runs use `base` itself.)"""
-    ts = Y.merge_exits(Y.drop_dead(Y.eliminate_caches(base.copy()), with_ret=True))
+    ts = base.copy()
+    if an is not None:
+        eliminate_dependent(ts, an)
+    ts = Y.merge_exits(Y.drop_dead(Y.eliminate_caches(ts), with_ret=True))
     # the kernels are only ever entered with L >= 2 (C05-R7 proves it of both entry points): ways that need L < 2 do not exist
     ex = ts.ex
     Ln = ex.params[1]
@@ -54,6 +57,7 @@ def prepare(base):
             if Y.feasible_with(cons + pre, disj):
                 keep.append(t)
         ts.trans = keep
+        Y.peel_entry(ts, pre)
     return ts
 
 
@@ -79,7 +83,7 @@ def implementations(ctx):
         check_shape(base, f"py {nm}")
         out[("py", nm)] = dict(ex=ex, raw0=base, where=fn, offsets="os" in base.allocs, unit=pu)
     for k, d in out.items():
-        d["raw"] = prepare(d["raw0"])
+        d["raw"] = prepare(d["raw0"], analysis(ctx, k, d))
         d["raw"] = strengthen(ctx, k, d)
         d["norm"] = Y.normalise(d["raw"])
         want = k[1].endswith("2")
@@ -182,6 +186,77 @@ def strengthen(ctx, key, a):
                 before.append(("eq" if taken else "ne", ex.aff(atom[1])))
         t["key"] = new
     ts.trans = keep
+    return ts
+
+
+def eliminate_dependent(ts, an):
+    """a counter that only steers control (it occurs in integer tests and in counter updates, never in an array index, a stored value or a
+    data-dependent test) and that the inferred invariants express through the other counters wherever it is live - `left == j - k` for a
+    step-6 loop that counts the remaining ranges down, `remaining == L - k` - is replaced by that expression and dropped from the state:
+    the generalisation of merging provably equal counters to provably affinely dependent ones.  Exact on reachable states."""
+    ex = ts.ex
+
+    def mentions(e, v):
+        return v in Y.free_vars(e)
+    for v in ts.int_vars():
+        if v in ex.params:
+            continue
+        nodes_v = [n for n in ts.nodes if v in ts.state.get(n, {})]
+        if not nodes_v:
+            continue
+        steering = True
+        for t in ts.trans:
+            if t["src"] not in nodes_v:
+                continue
+            obs = [a for a, _ in t["key"] if a[0] not in ("ige", "ieq")]
+            for st in t["arrays"].values():
+                for i, x in st:
+                    obs += [Y.aff_ir(i), x]
+            obs += [Y.aff_ir(i) for b, i, rw in t["acc"]]
+            if t.get("ret") is not None:
+                obs.append(t["ret"])
+            obs += [x for w, x in t["scal"].items() if w != v and ts.state[t["dst"]].get(w) != "int"]
+            if any(mentions(x, v) for x in obs):
+                steering = False
+                break
+        if not steering:
+            continue
+        exprs = {}
+        for n in nodes_v:
+            sts = [s0 for s0 in (an.state.get((n, var)) for var in ("e", "b")) if s0 is not None and not s0.bottom]
+            cand = None
+            # the simplest expression  c + (+-w) + (+-u)  over the other counters of this cut point (and the parameters) that the invariant
+            # proves equal to v: fewest variables first
+            pool = sorted(w for w in list(ts.state[n]) + list(ex.params) if w != v and (ts.state[n].get(w, "int") == "int") and w in ex.ints)
+            shapes = [()] + [((w, sg),) for w in pool for sg in (1, -1)] + \
+                     [((w, sw), (u, su)) for i, w in enumerate(pool) for u in pool[i + 1:] for sw in (1, -1) for su in (1, -1)]
+            for shape in (shapes if sts else ()):
+                e0 = Aff({w: sg for w, sg in shape}, 0)
+                d = sts[0].reduce(V(v) - e0)
+                if d.c:
+                    continue
+                expr = e0 + d.k
+                if all(s0.entails_eq(V(v) - expr) for s0 in sts):
+                    cand = expr
+                    break
+            if cand is None:
+                exprs = None
+                break
+            exprs[n] = cand
+        if not exprs:
+            continue
+        out = []
+        for t in ts.trans:
+            if t["src"] in exprs:
+                mp = {v: Y.aff_ir(exprs[t["src"]])}
+                t = Y.map_trans(t, lambda x, mp=mp: Y.subst_vars(x, mp, ex), ts)
+            if v in t["scal"]:
+                t = dict(t, scal={w: x for w, x in t["scal"].items() if w != v})
+            out.append(t)
+        ts.trans = out
+        for n in nodes_v:
+            ts.state[n].pop(v, None)
+            ts.notes.append(f"{n}: {v} == {exprs[n]} (inferred invariant); the counter only steers control and is replaced")
     return ts
 
 
